@@ -279,6 +279,8 @@ pub struct Cl {
     pub delivered_per_tick: BTreeMap<u32, usize>,
     pub fired: BTreeSet<u32>,
     pub completion_checked: BTreeSet<u32>,
+    /// client entity -> ticks for which `EntityReplicated` was observed in this session
+    pub conf_ticks: BTreeMap<Entity, BTreeSet<u32>>,
     /// tick of the last update message the server sent to this client in this session
     pub last_upd_tick_sent: u32,
     /// tick of the last update message the transport handed to this client in this session
@@ -480,6 +482,7 @@ impl Sim {
                     delivered_per_tick: default(),
                     fired: default(),
                     completion_checked: default(),
+                    conf_ticks: default(),
                     last_upd_tick_sent: 0,
                     last_upd_tick_delivered: 0,
                     stamps: default(),
@@ -552,6 +555,15 @@ impl Sim {
             known: vec![],
             obs: default(),
         };
+        // a third of the runs: the clients' game logic puts replication markers on what it receives
+        // (decided from the seed without touching the run's random stream)
+        let mh = crate::util::fnv64(&[seed.to_le_bytes(), *b"markers!"].concat());
+        if mh % 3 == 0 {
+            for (i, c) in sim.clients.iter_mut().enumerate() {
+                c.app.world_mut().resource_mut::<MarkerSalt>().0 = (mh | 1).wrapping_add(i as u64 * 2);
+            }
+            sim.obs.inc("runs_with_client_markers");
+        }
         if sim.cfg.rel && sim.rng.below(3) == 0 {
             sim.prepopulate();
         }
@@ -682,6 +694,7 @@ impl Sim {
         c.delivered_per_tick.clear();
         c.fired.clear();
         c.completion_checked.clear();
+        c.conf_ticks.clear();
         c.last_upd_tick_sent = 0;
         c.last_upd_tick_delivered = 0;
         c.last_update_raw = 0;
